@@ -186,6 +186,20 @@ func VerifFrameworkOrder() {
 		}
 	}
 	if prop == "C03" {
+		if kind == 0 {
+			// the deprecated single-lint view (Registry.ByName / BySource -> *lint.Lint) judges the same window
+			dl := r.ByName(st.name)
+			zz.Assert(dl != nil, "the deprecated lookup finds the certificate lint")
+			if dl != nil {
+				zz.Assert(dl.EffectiveDate == st.eff && dl.IneffectiveDate == st.ineff, "the deprecated Lint view carries the lint's effective and ineffective dates")
+				zz.Assert(dl.CheckEffective(c) == inWindow, "the deprecated Lint view judges the same half-open window")
+			}
+			for _, bl := range r.BySource(st.src) {
+				if bl.Name == st.name {
+					zz.Assert(bl.CheckEffective(c) == inWindow, "the deprecated by-source view judges the same half-open window")
+				}
+			}
+		}
 		if st.panics && st.early {
 			// a panic in the applicability test precedes the window test; the framework's
 			// report of it (fatal, certificate lints) is the subject of C02/C04, not of C03
